@@ -261,4 +261,184 @@ example : Logfmt.read (Logfmt.write [([97], [120, 32, 34, 10]), ([98, 99], [])])
     = ([([97], [120, 32, 34, 10]), ([98, 99], [])], false) :=
   logfmt_read_write _ (by decide)
 
+
+/-! ## JSON -/
+section JsonPart
+open Json Bytes
+
+theorem hexVal_hexDigit : ∀ n, n < 16 → hexVal? (hexDigit n) = some n := by decide
+
+theorem hex4_esc (b : Nat) (rest : List Nat) (hb : b < 32) :
+    hex4 (48 :: 48 :: hexDigit (b / 16) :: hexDigit (b % 16) :: rest) = some (b, rest) := by
+  have h0 : hexVal? 48 = some 0 := by decide
+  simp only [hex4, h0, hexVal_hexDigit (b / 16) (by omega), hexVal_hexDigit (b % 16) (by omega)]
+  simp; omega
+
+theorem encodeRune_ascii (b : Nat) (hb : b < 128) : Utf8.encodeRune b = [b] := by
+  simp [Utf8.encodeRune, hb]
+
+theorem length_le_esc (s : List Nat) : s.length ≤ ((s.map Json.escByte).flatten).length := by
+  induction s with
+  | nil => simp
+  | cons b s ih =>
+    have : 1 ≤ (Json.escByte b).length := by
+      unfold Json.escByte; repeat' split
+      all_goals simp
+    simp only [List.map_cons, List.flatten_cons, List.length_append, List.length_cons]
+    omega
+
+theorem readStrBody_plain (b f : Nat) (rest acc : List Nat) (h34 : b ≠ 34) (h92 : b ≠ 92) (h32 : ¬ b < 32) :
+    readStrBody (f + 1) (b :: rest) acc = readStrBody f rest (acc ++ [b]) := by
+  conv => lhs; unfold readStrBody
+  simp [h34, h92, h32]
+
+theorem readStrBody_esc (s rest acc : List Nat) (fuel : Nat) (hs : asciiOK s = true) (hf : s.length < fuel) :
+    readStrBody fuel ((s.map Json.escByte).flatten ++ 34 :: rest) acc = some (acc ++ s, rest) := by
+  induction s generalizing fuel acc with
+  | nil =>
+    cases fuel with
+    | zero => simp at hf
+    | succ f => simp [readStrBody]
+  | cons b s ih =>
+    cases fuel with
+    | zero => simp at hf
+    | succ f =>
+      simp only [asciiOK, List.all_cons, Bool.and_eq_true, decide_eq_true_eq] at hs
+      have hs2 : asciiOK s = true := by simpa [asciiOK] using hs.2
+      have hf2 : s.length < f := by simp at hf; omega
+      have IH := fun acc => ih acc f hs2 hf2
+      by_cases h34 : b = 34
+      · subst h34; simp [Json.escByte, readStrBody, IH]
+      by_cases h92 : b = 92
+      · subst h92; simp [Json.escByte, readStrBody, IH]
+      by_cases h32 : b < 32
+      · have e : Json.escByte b = [92, 117, 48, 48, hexDigit (b / 16), hexDigit (b % 16)] := by
+          simp [Json.escByte, h34, h92, h32]
+        simp only [List.map_cons, List.flatten_cons, e, List.cons_append, List.nil_append]
+        rw [readStrBody]
+        simp only [hex4_esc b _ h32]
+        have n1 : ¬ (55296 ≤ b) := by omega
+        have n2 : ¬ (56320 ≤ b) := by omega
+        simp [n1, n2, encodeRune_ascii b hs.1, IH]
+      · have e : Json.escByte b = [b] := by simp [Json.escByte, h34, h92, h32]
+        simp only [List.map_cons, List.flatten_cons, e, List.cons_append, List.nil_append]
+        rw [readStrBody_plain b f _ _ h34 h92 h32, IH]
+        simp
+
+/-! decimal digits (`natToDec` facts, restated to keep the imports small) -/
+
+theorem aux_append (fuel n : Nat) (acc : List Nat) :
+    natDigitsAux fuel n acc = natDigitsAux fuel n [] ++ acc := by
+  induction fuel generalizing n acc with
+  | zero => rfl
+  | succ f ih =>
+    unfold natDigitsAux
+    split
+    · rfl
+    · rw [ih _ (_ :: acc), ih _ [_], List.append_assoc]; rfl
+
+theorem aux_fuel (f1 f2 n : Nat) (acc : List Nat) (h1 : n < f1) (h2 : n < f2) :
+    natDigitsAux f1 n acc = natDigitsAux f2 n acc := by
+  induction f1 generalizing f2 n acc with
+  | zero => omega
+  | succ f ih =>
+    cases f2 with
+    | zero => omega
+    | succ g =>
+      unfold natDigitsAux
+      split
+      · rfl
+      · exact ih _ _ _ (by omega) (by omega)
+
+theorem natToDec_step (n : Nat) :
+    natToDec n = if n < 10 then [48 + n] else natToDec (n / 10) ++ [48 + n % 10] := by
+  unfold natToDec
+  rw [natDigitsAux]
+  split
+  · rfl
+  · rw [aux_append, aux_fuel n (n / 10 + 1) (n / 10) [] (by omega) (by omega)]
+
+theorem digitsVal_snoc (xs : List Nat) (d : Nat) : digitsVal (xs ++ [d]) = digitsVal xs * 10 + (d - 48) := by
+  simp [digitsVal, List.foldl_append]
+
+theorem digitsVal_natToDec (n : Nat) : digitsVal (natToDec n) = n := by
+  induction n using Nat.strongRecOn with
+  | _ n ih =>
+    rw [natToDec_step]
+    split
+    · simp [digitsVal]
+    · rw [digitsVal_snoc, ih (n / 10) (by omega)]; omega
+
+theorem natToDec_digits (n : Nat) : ∀ x ∈ natToDec n, isDigit x = true := by
+  induction n using Nat.strongRecOn with
+  | _ n ih =>
+    rw [natToDec_step]
+    split
+    · simp [isDigit]; omega
+    · intro x hx
+      rw [List.mem_append] at hx
+      rcases hx with hx | hx
+      · exact ih (n / 10) (by omega) x hx
+      · simp at hx; subst hx; simp [isDigit]; omega
+
+theorem natToDec_ne_nil (n : Nat) : natToDec n ≠ [] := by
+  rw [natToDec_step]; split <;> simp
+
+theorem natToDec_head (n : Nat) (hn : 1 ≤ n) : (natToDec n).head? ≠ some 48 := by
+  induction n using Nat.strongRecOn with
+  | _ n ih =>
+    rw [natToDec_step]
+    split
+    · simp; omega
+    · have := ih (n / 10) (by omega) (by omega)
+      cases hd : natToDec (n / 10) with
+      | nil => exact absurd hd (natToDec_ne_nil _)
+      | cons a l => rw [hd] at this; simpa using this
+
+/-- a run of digits without a superfluous leading zero, followed by `,` or `}`, reads as an integer -/
+theorem readNumber_digits (checkInt neg : Bool) (ds r' : List Nat) (c : Nat)
+    (hne : ds ≠ []) (hd : ∀ x ∈ ds, isDigit x = true) (hz : ds.length > 1 → ds.head? ≠ some 48)
+    (hc : c = 44 ∨ c = 125)
+    (hr : -9223372036854775808 ≤ (if neg then -(digitsVal ds : Int) else (digitsVal ds : Int)) ∧
+          (if neg then -(digitsVal ds : Int) else (digitsVal ds : Int)) ≤ 9223372036854775807) :
+    readNumber checkInt ((if neg then [45] else []) ++ ds ++ c :: r')
+      = some (.int (if neg then -(digitsVal ds : Int) else (digitsVal ds : Int)), c :: r') := by
+  have hcd : isDigit c = false := by rcases hc with h | h <;> subst h <;> decide
+  have ht : (ds ++ c :: r').takeWhile isDigit = ds := by
+    rw [List.takeWhile_append_of_pos hd]; simp [hcd]
+  have hdr : (ds ++ c :: r').dropWhile isDigit = c :: r' := by
+    rw [List.dropWhile_append_of_pos hd]; simp [hcd]
+  have hz' : (decide (ds.length > 1) && ds.head? == some 48) = false := by
+    by_cases h1 : ds.length > 1
+    · have := hz h1
+      simp [h1, this]
+    · simp [h1]
+  have hrange : (checkInt && (decide ((if neg then -(digitsVal ds : Int) else (digitsVal ds : Int)) < -9223372036854775808)
+      || decide ((if neg then -(digitsVal ds : Int) else (digitsVal ds : Int)) > 9223372036854775807))) = false := by
+    have h1 : ¬ ((if neg then -(digitsVal ds : Int) else (digitsVal ds : Int)) < -9223372036854775808) := by omega
+    have h2 : ¬ ((if neg then -(digitsVal ds : Int) else (digitsVal ds : Int)) > 9223372036854775807) := by omega
+    simp [h1, h2]
+  have hemp : ds.isEmpty = false := by cases ds <;> simp_all
+  cases neg with
+  | true =>
+    simp only [↓reduceIte, List.cons_append, List.nil_append] at hrange ⊢
+    unfold readNumber
+    simp only [ht, hdr, hemp, hz', Bool.or_false, Bool.false_eq_true, ↓reduceIte]
+    rcases hc with h | h <;> subst h <;> simp [numEnd, isWs, hrange]
+  | false =>
+    simp only [Bool.false_eq_true, ↓reduceIte, List.nil_append] at hrange ⊢
+    cases ds with
+    | nil => exact absurd rfl hne
+    | cons d ds' =>
+      have hd45 : d ≠ 45 := by
+        have := hd d (by simp)
+        simp [isDigit] at this; omega
+      unfold readNumber
+      split
+      · rename_i r heq
+        simp at heq; exact absurd heq.1 hd45
+      · simp only [ht, hdr, hemp, hz', Bool.or_false, Bool.false_eq_true, ↓reduceIte]
+        rcases hc with h | h <;> subst h <;> simp [numEnd, isWs, hrange]
+
+end JsonPart
 end C06Writers
